@@ -353,6 +353,27 @@ def rule_h(ctx):
     return any(A.call_name(c) == what for c in n.calls())
   disc = [n for n in g.nodes if n.ast is not None and calls(n, 'self._specified_args.discard')]
   adds = [n for n in g.nodes if n.ast is not None and calls(n, 'self._specified_args.add')]
+  # the branch for an update BELOW an argument (len(path) != 1) is judged by C18.p; here only the
+  # top-level updates count (in that branch the argument's own value is a container, never MISSING)
+  nested = set()
+  for t in g.nodes:
+    if t.kind == 'test' and isinstance(t.ast, ast.Compare) and len(t.ast.ops) == 1 \
+        and isinstance(t.ast.left, ast.Call) and A.call_name(t.ast.left) == 'len' \
+        and isinstance(t.ast.comparators[0], ast.Constant) and t.ast.comparators[0].value == 1:
+      lab = 'true' if isinstance(t.ast.ops[0], (ast.NotEq, ast.Gt)) else 'false'
+      heads = {n.id for n in g.nodes if n.kind == 'iter'}
+      for m, l in t.succ:
+        if l == lab:
+          seen_n, _ = g.reach(m, blocked_nodes=heads, follow_exc=False)
+          nested |= set(seen_n) | {m.id}
+      other = set()
+      for m, l in t.succ:
+        if l != lab:
+          seen_o, _ = g.reach(m, blocked_nodes=heads, follow_exc=False)
+          other |= set(seen_o) | {m.id}
+      nested -= other
+  disc = [n for n in disc if n.id not in nested]
+  adds = [n for n in adds if n.id not in nested]
   problems = []
   if not disc or not adds:
     problems.append('the specified-argument set is no longer maintained in _on_change')
@@ -688,8 +709,65 @@ def rule_o(ctx):
          '; '.join(bad))
 
 
+def rule_p(ctx):
+  """The call uses the arguments the functor reports: the sets `specified_args` /
+  `default_args` / `non_default_args`, from which the call decides what to pass, are
+  maintained by Functor._on_change.  Every update it is told about moves the bookkeeping
+  of the argument it belongs to - also an update BELOW an argument (`x.rebind({'opts.k':
+  2})`, `x.args.append(5)`), which used to be skipped with a bare `continue`: the value
+  changed, `sym_init_args` showed it, and the call kept passing the default."""
+  idx = ctx.index
+  f = idx.func('pyglove.core.symbolic.functor.Functor._on_change')
+  g = C.cfg_of(f.node)
+  loops = [n for n in ast.walk(f.node) if isinstance(n, ast.For)]
+  if not loops:
+    raise AnalysisError('Functor._on_change: loop over the updates not found')
+  heads = [n for n in g.nodes if n.kind == 'iter' and n.ast is loops[0]]
+  marks = [n for n in g.nodes if n.ast is not None and any(
+      (A.call_name(c) or '') in ('self._specified_args.add', 'self._specified_args.discard') for c in n.calls())]
+  if not heads or not marks:
+    raise AnalysisError('Functor._on_change: bookkeeping statements not found')
+  # from the first statement of the body: can the next iteration (or the end) be reached with no mark passed?
+  body_first = [m for m, lab in heads[0].succ if lab in ('true', 'body', 'iter')] or [m for m, _ in heads[0].succ][:1]
+  skipped = None
+  for st in body_first:
+    seen, parent = g.reach(st, blocked_nodes={m.id for m in marks}, follow_exc=False)
+    if st.id not in {m.id for m in marks} and heads[0].id in seen:
+      skipped = g.witness_str(parent, heads[0])
+  ctx.ob('C18.p', 'Functor._on_change#every-update', skipped is None,
+         'every field update moves the specified/default bookkeeping of its argument (updates below an argument included)',
+         f.loc, f'an update can be skipped: {skipped} - f(1).rebind({{\'opts.k\': 2}}) shows opts={{k=2}} in sym_init_args '
+         f'while the call still passes the default')
+
+
+def rule_q(ctx):
+  """Signature.get_value_spec returns None for a name the signature does not resolve by
+  keyword - by design that includes the *args name (C18.o keeps it that way: `f(args=[1])`
+  must not reach the varargs).  Its result is therefore never dereferenced unchecked:
+  `del x.args` did `get_value_spec(name).has_default` after the value had already been
+  removed.  (A first version of this rule asked get_value_spec to resolve the varargs
+  name; that contradicts C18.o and was withdrawn together with the repair that did it.)"""
+  idx = ctx.index
+  n = 0
+  for f in idx.all_funcs():
+    if not f.module.name.startswith('pyglove.core.symbolic.') or f.module.relpath.endswith('_test.py'):
+      continue
+    for x in ast.walk(f.node):
+      if isinstance(x, ast.Call) and (A.call_name(x) or '').endswith('.get_value_spec'):
+        n += 1
+        deref = [a for a in ast.walk(f.node) if isinstance(a, ast.Attribute) and a.value is x]
+        ctx.ob('C18.q', f'{f.qualname}#get_value_spec@{"deref" if deref else "checked"}:{n}', not deref,
+               'the Optional result of get_value_spec is not dereferenced unchecked', f'{f.module.relpath}:{x.lineno}',
+               f'`{A.unparse(deref[0], 70) if deref else ""}`: None for the *args name (and for an unknown name without **kwargs) - '
+               f'`del x.args` raises AttributeError with the value already removed')
+  if n == 0:
+    ctx.ob('C18.q', 'symbolic#get_value_spec-uses', True, 'no use of Signature.get_value_spec in the symbolic package', 'pyglove/core/symbolic/functor.py:1')
+
+
 def run(ctx):
   ctx.consult(*FILES)
+  rule_p(ctx)
+  rule_q(ctx)
   rule_a(ctx)
   rule_b(ctx)
   rule_c(ctx)
